@@ -18,7 +18,7 @@ item is listed in `Gen.Env.untied` (reported as a NOTE, tied by the corresponden
 -/
 import SimpleDnsModel.Generated.Envelope
 import SimpleDnsModel.Model.Match
-import SimpleDnsModel.Model.Mdns
+import SimpleDnsModel.Model.Pipeline
 namespace Dns.TieEnv
 open Dns
 
@@ -322,5 +322,16 @@ theorem refresh_offset (ttl : Nat) :
     Mdns.refreshOffsetSecs ttl =
       refreshWith (Gen.Env.expShortBelow.getD 60) (Gen.Env.expShortDiv.getD 2)
         (Gen.Env.expLongDiv.getD 10) (Gen.Env.expLongMul.getD 8) ttl := rfl
+
+/-! ### 9. the responder loops and a failed `send_to` (simple-mdns) -/
+
+def policyOf (s : String) : Mdns.OnSendError := if s = "propagate" then .propagate else .log
+
+/-- both flavours of `SimpleMdnsResponder::responder_loop` log a failed send and go on — the policy
+`Props/C14.lean` proves harmless (`responder_loop_survives`); with `?` instead, one datagram ends
+the service (`responder_loop_propagate_ends`) -/
+theorem responder_send_policy :
+    policyOf (Gen.Env.responderSendSync.getD "log") = Mdns.responderSendPolicy ∧
+    policyOf (Gen.Env.responderSendTokio.getD "log") = Mdns.responderSendPolicy := by decide
 
 end Dns.TieEnv
